@@ -97,7 +97,7 @@ Definition abstract (cfg : config) (now : Z) (r : request) : areq :=
       | Some k =>
           (* from: absent or empty = no lower bound (then timestamps or an explicit (empty) from must be present);
              to: default now; limit: default 1000, 1..10000; all given numbers are non-negative integers *)
-          let from_ok := match q_from q with QAbsent | QEmpty => true | a => given a && (if nonneg_int a then true else false) end in
+          let from_ok := match q_from q with QAbsent | QEmpty => true | a => if nonneg_int a then true else false end in
           let from := nonneg_int (q_from q) in
           let to := match q_to q with QAbsent => Some now | a => nonneg_int a end in
           let limit := match q_limit q with
